@@ -243,7 +243,17 @@ func coverageReport(c *core.Ctx, labels []string) {
 	}
 	trans, transReplayed := 0, 0
 	var transOnlyRun []string
+	zeroRun, zeroReplayed := 0, 0
 	for f, n := range cov.executed {
+		if n > 0 && strings.HasPrefix(f, "zero:") {
+			zeroRun++
+			if cov.replayed[f] > 0 {
+				zeroReplayed++
+			} else {
+				transOnlyRun = append(transOnlyRun, f)
+			}
+			continue
+		}
 		if !strings.Contains(f, ">") || n == 0 {
 			continue
 		}
@@ -257,6 +267,12 @@ func coverageReport(c *core.Ctx, labels []string) {
 	sort.Strings(transOnlyRun)
 	c.Stats["transitions_executed"] = trans
 	c.Stats["transitions_replayed_on_model"] = transReplayed
+	// the same features within programs that store the int 0, and the runs in which a CompareAndSwap failed although the
+	// entry held the value 0 both when the pointer was loaded and at the CAS (equal value, different pointer)
+	c.Stats["zero_features_executed"] = zeroRun
+	c.Stats["zero_features_replayed_on_model"] = zeroReplayed
+	c.Stats["zero_stale_cas_runs"] = cov.executed[zeroStaleCAS]
+	c.Stats["zero_stale_cas_runs_replayed_on_model"] = cov.replayed[zeroStaleCAS]
 	if c.NoModel {
 		c.Note(fmt.Sprintf("label coverage (tier %s, no model replay): %d of %d model labels executed by the real code; never executed: %v",
 			c.Tier, labelsReplayed+len(neverReplayed), len(labels), neverRun))
@@ -264,8 +280,109 @@ func coverageReport(c *core.Ctx, labels []string) {
 	}
 	c.Note(fmt.Sprintf("label coverage of the model replay: %d of %d model labels and %d of %d executed in-call label transitions occur in a model-replayed case "+
 		"(each in at least min(%d, number of runs containing it) replayed cases, runs longer than %d steps excepted); never executed by the real code: %v; "+
-		"executed but never replayed on the model: labels/branches %v, transitions %v",
-		labelsReplayed, len(labels), transReplayed, trans, coverK, coverMaxSteps, neverRun, neverReplayed, transOnlyRun))
+		"executed but never replayed on the model: labels/branches %v, transitions %v. Programs that store the int 0: %d of their %d features (counted apart, prefix zero:) replayed; "+
+		"%d runs with a CompareAndSwap that failed on an equal value 0 (stale pointer), %d of them replayed on the model",
+		labelsReplayed, len(labels), transReplayed, trans, coverK, coverMaxSteps, neverRun, neverReplayed, transOnlyRun,
+		zeroReplayed, zeroRun, cov.executed[zeroStaleCAS], cov.replayed[zeroStaleCAS]))
+}
+
+const zeroStaleCAS = "zero:stale_cas_on_equal_value_0"
+
+func storesZero(info *runInfo) bool {
+	for _, calls := range info.calls {
+		for _, ci := range calls {
+			if (ci.spec.Op == "Store" || ci.spec.Op == "LoadOrStore") && ci.spec.V == 0 {
+				return true
+			}
+		}
+	}
+	return false
+}
+
+// staleZeroCAS counts the failed CompareAndSwaps of tryStore / entry.delete (a X_cas step followed, in the same call,
+// by another X_load) for which key k held the int 0 when the pointer was loaded and held the int 0 again at the CAS:
+// the value is equal, the pointer is not, the CAS must fail (in a Set, where all values share one address, it would
+// succeed). "Held" is decided from the calls alone, conservatively: the writes to k that began before the moment must
+// all have returned, the last one to return must not overlap the one before it, and it must have left the int 0.
+func staleZeroCAS(r sched.Result, info *runInfo) int {
+	type wr struct {
+		first, last int
+		ci          *callInfo
+	}
+	writes := map[int][]wr{}
+	type iv struct {
+		first, last int
+		ci          *callInfo
+	}
+	var calls []iv
+	for t, cs := range info.calls {
+		prevEnd := 0
+		for _, ci := range cs {
+			first, last := -1, -1
+			for i := prevEnd; i < ci.endAt && i < len(r.Steps); i++ {
+				if r.Steps[i].T == t {
+					if first < 0 {
+						first = i
+					}
+					last = i
+				}
+			}
+			prevEnd = ci.endAt
+			if first < 0 || ci.spec.Op == "Range" || ci.spec.Op == "Load" {
+				continue
+			}
+			calls = append(calls, iv{first, last, ci})
+			writes[ci.spec.K] = append(writes[ci.spec.K], wr{first, last, ci})
+		}
+	}
+	holdsZero := func(k, at int, self *callInfo) bool {
+		var top, second *wr
+		for i := range writes[k] {
+			w := &writes[k][i]
+			if w.ci == self || w.first >= at {
+				continue
+			}
+			if w.last >= at {
+				return false // a write to k is in progress
+			}
+			if top == nil || w.last > top.last {
+				top, second = w, top
+			} else if second == nil || w.last > second.last {
+				second = w
+			}
+		}
+		if top == nil || (second != nil && second.last >= top.first) {
+			return false
+		}
+		switch top.ci.spec.Op {
+		case "Store":
+			return top.ci.spec.V == 0
+		case "LoadOrStore":
+			return top.ci.rv == 0 // the value it found or stored
+		}
+		return false
+	}
+	n := 0
+	for _, c := range calls {
+		if c.ci.spec.Op == "LoadOrStore" {
+			continue // its CAS is from nil, not from a pointer to a value
+		}
+		var mine []int
+		for i := c.first; i <= c.last; i++ {
+			if r.Steps[i].T == c.ci.t {
+				mine = append(mine, i)
+			}
+		}
+		for x := 0; x+2 < len(mine); x++ {
+			a, b, d := r.Steps[mine[x]].Label, r.Steps[mine[x+1]].Label, r.Steps[mine[x+2]].Label
+			if (a == "TryStore_load" && b == "TryStore_cas" && d == "TryStore_load") || (a == "Delete_load" && b == "Delete_cas" && d == "Delete_load") {
+				if holdsZero(c.ci.spec.K, mine[x], c.ci) && holdsZero(c.ci.spec.K, mine[x+1], c.ci) {
+					n++
+				}
+			}
+		}
+	}
+	return n
 }
 
 func report(c *core.Ctx, cs Case, r sched.Result, info *runInfo) {
@@ -320,7 +437,24 @@ func report(c *core.Ctx, cs Case, r sched.Result, info *runInfo) {
 	// Coq case: the 1-in-emitEvery sample, every failing run, and every run with a feature the model has seen
 	// in fewer than coverK cases
 	feats := features(r.Steps)
-	rare := false
+	stale := false
+	if storesZero(info) {
+		// a program that stores the int 0 runs the flag-false branch of the model's cas_ok on the value 0: its
+		// features are counted a second time under a "zero:" name, so that they get their own coverK model replays
+		// instead of sharing those of the programs with non-zero values (audit round 2, item 2)
+		c.Count("runs_of_programs_storing_0")
+		zf := make([]string, 0, len(feats)+1)
+		for _, f := range feats {
+			zf = append(zf, "zero:"+f)
+		}
+		if n := staleZeroCAS(r, info); n > 0 {
+			zf = append(zf, zeroStaleCAS)
+			c.CountN("zero_stale_cas_failures_executed", n)
+			stale = true
+		}
+		feats = append(feats, zf...)
+	}
+	rare := stale // every run with a stale CAS on the value 0 goes to the model, not only the first coverK
 	for _, f := range feats {
 		cov.executed[f]++
 		if cov.replayed[f] < coverK {
